@@ -39,6 +39,7 @@ class Concrete(Material):
         self.setMassFrac("K", 0.013000)
         self.setMassFrac("CA", 0.044000)
         self.setMassFrac("FE", 0.014000)
+        self.refDens = 2.3000  # g/cm3, what pseudoDensity expands in 2D
 
     def density(self, Tk=None, Tc=None):
         return 2.3000  # g/cm3
